@@ -220,7 +220,7 @@ def conforms(spec: Spec, r, _depth=0, closed=False) -> tuple[bool, str]:
                     if not ok:
                         return False, f"[{fname!r}]{p}"
             return True, ""
-        if not isinstance(r, spec.t):
+        if not isinstance(r, spec.t) or (closed and type(r) is not spec.t):
             return False, f"<{type(r).__name__} is not {spec.info['name']}>"
         for fname, fspec, _ in spec.info["fields"]:
             try:
